@@ -63,32 +63,19 @@ def jaccard (t : Nat × Nat × Nat × Nat × Nat) (a b : Compact Unit) (seed : U
     let c : Cfg := { lgNom := lgK, lgRf := 3, theta0 := MAX_THETA, lgStart := startingSubMultiple (lgK + 1) minLgK 3,
                      rszNum := rszNum, rszDen := rszDen, rbdNum := rbdNum, rbdDen := rbdDen }
     let sh := (seedHash seed).toNat
-    match unionUpdate c nopPolicy sh (unionInit c) a with
+    match jaccardParts c sh a b with
     | none => "throw"
-    | some u1 => match unionUpdate c nopPolicy sh u1 b with
-      | none => "throw"
-      | some u2 =>
-        let uab := unionResult c u2 false sh
-        if uab.ents.length == a.ents.length && uab.ents.length == b.ents.length && uab.theta == a.theta && uab.theta == b.theta
-        then s!"J {one} {one} {one}"
-        else
-          match interUpdate nopPolicy sh interInit a with
-          | none => "throw"
-          | some i1 => match interUpdate nopPolicy sh i1 b with
-            | none => "throw"
-            | some i2 => match interUpdate nopPolicy sh i2 uab with
-              | none => "throw"
-              | some i3 => match interResult i3 false sh with
-                | none => "throw"
-                | some r =>
-                  if r.theta > uab.theta then "throw" else
-                  let cb := r.ents.length
-                  let ca := if uab.theta == r.theta then uab.ents.length else (uab.ents.filter (fun e => e.1 < r.theta)).length
-                  let f := thetaFrac r.theta
-                  let est := if ca == 0 then 0.5 else cb.toFloat / ca.toFloat
-                  if ca == 0 then s!"J {hexF 0.0} {hexF est} {hexF 1.0}"
-                  else if f == 1.0 then s!"J {hexF est} {hexF est} {hexF est}"
-                  else s!"Jest {hexF est}"
+    | some (uab, r) =>
+      if uab.ents.length == a.ents.length && uab.ents.length == b.ents.length && uab.theta == a.theta && uab.theta == b.theta
+      then s!"J {one} {one} {one}"
+      else if r.theta > uab.theta then "throw" else
+        let cb := r.ents.length
+        let ca := if uab.theta == r.theta then uab.ents.length else (uab.ents.filter (fun e => e.1 < r.theta)).length
+        let f := thetaFrac r.theta
+        let est := if ca == 0 then 0.5 else cb.toFloat / ca.toFloat
+        if ca == 0 then s!"J {hexF 0.0} {hexF est} {hexF 1.0}"
+        else if f == 1.0 then s!"J {hexF est} {hexF est} {hexF est}"
+        else s!"Jest {hexF est}"
 
 /-- `exactly_equal`: same object, both empty, or the union of the two has the retained count and theta of both -/
 def exactlyEqual (t : Nat × Nat × Nat × Nat × Nat) (a b : Compact Unit) (seed : UInt64) (same : Bool) : String :=
